@@ -73,5 +73,5 @@ static __attribute__((noinline)) void do_case(unsigned i) {
 extern "C" void harness_c17() {
   unsigned sel = v_nondet_u32();
   v_assume(sel < CASES_PER_QUERY);
-  dispatch<Case, CASES_PER_QUERY>(sel);
+  dispatch<CaseW, CASES_PER_QUERY>(sel);
 }
